@@ -152,12 +152,14 @@ func (c *Collection) enqueueBackfillEvents(startCas uint64, keysOnly bool, q *ev
 	return rows.Close()
 }
 
-func (c *Collection) postNewEvent(e *event) {
+// _postNewEvent posts a committed mutation to the collection's feeds. The caller must hold the
+// bucket mutex (it is called from inTransactionThen right after the commit): that is what makes
+// events reach every feed in commit order, i.e. in increasing CAS order.
+func (c *Collection) _postNewEvent(e *event) {
 	info("DCP: %s cas 0x%x: %q = %#.50q ---- xattrs %#q", c, e.cas, e.key, e.value, e.xattrs)
 	feedEvent := e.asFeedEvent(c.GetCollectionID())
 
-	c.postEvent(feedEvent)
-	c.bucket.expManager.scheduleExpirationAtOrBefore(e.exp)
+	c._postEvent(feedEvent)
 
 	/*
 		// Tell collections of other buckets on the same db file to post the event too:
@@ -171,11 +173,8 @@ func (c *Collection) postNewEvent(e *event) {
 	*/
 }
 
-func (c *Collection) postEvent(event *sgbucket.FeedEvent) {
-	verifLock(c.bucket.mutex, "post")
-	c.bucket.mutex.Lock()
+func (c *Collection) _postEvent(event *sgbucket.FeedEvent) {
 	feeds := c.bucket.collectionFeeds[c.DataStoreNameImpl]
-	c.bucket.mutex.Unlock()
 
 	for _, feed := range feeds {
 		if feed != nil {
